@@ -120,6 +120,8 @@ Proof.
   - destruct (_ <? _); simpl; auto. left. apply set_nth_length.
   - destruct (nth_error _ _); simpl; auto. destruct (f_pad _); simpl; auto.
   - destruct (create_chunk _ _ _ _ _); simpl; auto.
+  - destruct (create_chunk _ _ _ _ _); simpl; auto.
+    destruct (xfer _ _ _ _); simpl; auto. destruct w; simpl; auto.
 Qed.
 
 (* the bitfield always has one bit per piece *)
